@@ -58,6 +58,12 @@ def run(ctx):
             for inj in ("copy_file_range:error=EIO:when=2", "openat:error=EACCES:when=3", "ftruncate:error=ENOSPC:when=1", "fchmod:error=EPERM:when=2"):
                 jobs.append((sc, drv, "rec", {"workers": 2, "block_size": 1000, "drain_timeout_s": 30}, None, inj, False))
                 jobs.append((sc, drv, "chan", {"workers": 2, "block_size": 1000, "drain_timeout_s": 30}, None, inj, False))
+    # the provided ChannelUpdater under many concurrent senders (its batching must never deliver more than was copied)
+    for sc in (scs[1], scs[2]):
+        for drv in ("parfile", "parblock"):
+            for bs in (64, 4096):
+                for rep in range(4 if quick else 20):
+                    jobs.append((sc, drv, "chan", {"workers": [8, 4, 16, 8][rep % 4], "block_size": bs, "drain_timeout_s": 30}, None, None, False))
     # a failure in ANY block, early or late, of a single file and of the last file of a tree
     one_file = scen("onefile", {"only": 8000})
     last_file = scen("lastfile", {"a": 10, "b": 20, "zz-last": 6000})
@@ -67,13 +73,14 @@ def run(ctx):
                 for upd in ("rec", "chan"):
                     jobs.append((sc, drv, upd, {"workers": [1, 2, 4][when % 3], "block_size": 1000, "drain_timeout_s": 30}, None,
                                  "copy_file_range:error=%s:when=%d" % (["EIO", "ENOSPC"][when % 2], when), False))
+    jobs = [j + (k,) for k, j in enumerate(jobs)]
     def one(j):
-        sc, drv, upd, cfg, env, inj, measure = j
-        rid = "c12-%s-%s-%s-%d-%d-%s" % (sc["id"], drv, upd, cfg["block_size"], cfg["workers"], abs(hash((str(env), inj))) % 9999)
+        sc, drv, upd, cfg, env, inj, measure, k = j
+        rid = "c12-%d-%s-%s-%s" % (k, sc["id"], drv, upd)
         return probeplane.run_copy(probe, sc, drv, upd, cfg, rid, env=env, timeout=60, strace_inject=inj, measure=measure)
     res = runner.pmap(one, jobs, workers=10)
     recs = []
-    for (sc, drv, upd, cfg, env, inj, measure), p in zip(jobs, res):
+    for (sc, drv, upd, cfg, env, inj, measure, k), p in zip(jobs, res):
         before = {tuple(e["p"]): e for e in p["before"]}; after = {tuple(e["p"]): e for e in p["after"]}
         missing = 0
         for path, e in before.items():
@@ -83,7 +90,7 @@ def run(ctx):
                 if d is None or d["c"] != e["c"]:
                     missing += 1
         end = p["end"] or {"result": "hang", "closed": False}
-        recs.append({"id": "%s/%s/%s/bs%d/w%d/%s%s" % (sc["id"], drv, upd, cfg["block_size"], cfg["workers"], (env or {}).get("XCP_VERIF_PLAN", ""), inj or ""),
+        recs.append({"id": "%s/%s/%s/bs%d/w%d/%s%s#%d" % (sc["id"], drv, upd, cfg["block_size"], cfg["workers"], (env or {}).get("XCP_VERIF_PLAN", ""), inj or "", k),
                      "stream": [{"u": u["u"], "n": int(u["n"])} for u in p["stream"]], "total": total_len(sc, p["before"]),
                      "transferred": p["transferred"], "result": "hang" if p["timed_out"] else end["result"], "closed": bool(end.get("closed", False)),
                      "missing": missing, "noop": upd == "noop"})
